@@ -39,8 +39,8 @@ RESTRICTIONS = [None, ["sql"], ["it"], ["sql", "it"], []]
 
 def budget(tier):
     if tier == "quick":
-        return {"cases": 1500, "workers": 8, "watchdog_s": 1500}
-    return {"cases": 80000, "workers": 16, "watchdog_s": 7200}
+        return {"cases": 12000, "workers": 8, "watchdog_s": 1800}
+    return {"cases": 480000, "workers": 16, "watchdog_s": 3600, "budget_s": 600}
 
 
 def gen_case(rng, tier):
